@@ -103,6 +103,10 @@ Calls ==
   \cup {[op |-> o, m |-> m, b |-> b, w |-> w] : o \in {"key.Recover", "skey.Sign", "spub.Verify", "btc.Verify"}, m \in BS, b \in BS, w \in 1..WSig}
   \cup {[op |-> o, b |-> b, w |-> w] : o \in {"key.PubASN1", "key.ParseASN1"}, b \in BS, w \in 1..WKey}
   \cup {[op |-> "env.AppendByte", b |-> b, w |-> w] : b \in BS, w \in 1..WEnv}
+  \cup {[op |-> o, b |-> b, w |-> w] : o \in {"key.PubEqual", "key.PrivEqual", "spub.Equal", "skey.Equal"}, b \in BS, w \in 1..WKey}
+  \cup {[op |-> "key.EqualForeign", c |-> c] : c \in {0, 1, 2, 3}}
+  \cup {[op |-> "btc.PreHash", m |-> m, b |-> b, c |-> c] : m \in BS, b \in BS, c \in {0, 1, 2}}
+  \cup {[op |-> o, w |-> w] : o \in {"key.Generate", "skey.Generate"}, w \in 1..WKey}
   \cup {[op |-> "env.LoadBuf", b |-> b, cls |-> c, content |-> Content(c), w |-> w] : b \in BS, c \in BufClasses, w \in 1..WLoad}
   \cup {[op |-> "env.MutateBuf", b |-> b, cls |-> "flip", w |-> w] : b \in BS, w \in 1..WEnv}
   \cup {[op |-> "env.MutateScalar", s |-> s, w |-> w] : s \in SS, w \in 1..WEnv}
@@ -153,6 +157,14 @@ Preludes ==
          [op |-> "key.Sign", m |-> 1, b |-> 0, c |-> 0], [op |-> "env.AppendByte", b |-> 0], [op |-> "btc.Verify", m |-> 1, b |-> 0],
          [op |-> "key.PubASN1", b |-> 0], [op |-> "env.AppendByte", b |-> 0], [op |-> "key.PubASN1", b |-> 0], [op |-> "key.ParseASN1", b |-> 0],
          [op |-> "btc.Verify", m |-> 1, b |-> 0] >> }
+  \cup
+    { << [op |-> "env.LoadBuf", b |-> 1, cls |-> "sc_small", content |-> Content("sc_small")], [op |-> "key.NewPrivate", b |-> 1],
+         [op |-> "key.PrivEqual", b |-> 1], [op |-> "key.PubBytes", b |-> 0], [op |-> "key.PubEqual", b |-> 0], [op |-> "key.PubCompressed", b |-> 0],
+         [op |-> "key.PubEqual", b |-> 0], [op |-> "skey.FromECDSA"], [op |-> "skey.Equal", b |-> 1], [op |-> "spub.Bytes", b |-> 0], [op |-> "spub.Equal", b |-> 0],
+         [op |-> "env.MutateBuf", b |-> 1, cls |-> "flip"], [op |-> "key.PrivEqual", b |-> 1], [op |-> "btc.PreHash", m |-> 1, b |-> 0, c |-> 0],
+         [op |-> "skey.Sign", m |-> 0, b |-> 1], [op |-> "spub.Verify", m |-> 0, b |-> 1] >>,
+      << [op |-> "key.Generate"], [op |-> "key.PrivBytes", b |-> 0], [op |-> "key.PrivEqual", b |-> 0], [op |-> "skey.Generate"], [op |-> "spub.Bytes", b |-> 1],
+         [op |-> "spub.Equal", b |-> 1] >> }
   \cup (IF NB < 3 THEN {} ELSE
     (* a signature is kept while DIFFERENT messages are signed into another buffer, then verified *)
     { << [op |-> "env.LoadBuf", b |-> 1, cls |-> "sc_small", content |-> Content("sc_small")], [op |-> "key.NewPrivate", b |-> 1],
@@ -180,7 +192,8 @@ CtxValid ==
      [op |-> "key.NewPrivate", b |-> 1], [op |-> "skey.FromECDSA"],
      [op |-> "key.Sign", m |-> 1, b |-> 0, c |-> 2] >>                      \* buffer 0 holds a signature handed out earlier
 SigOps == {"key.Sign", "key.Verify", "key.Recover", "skey.Sign", "spub.Verify", "btc.Verify", "key.ParseASN1"}
-ReadsBuf(ev) == ev.op \in DecodeOps \cup {"pt.NewFromBytes", "pt.FromCoords", "pt.SetUniform", "sc.SetBytes", "sc.SetCanonicalBytes", "key.NewPrivate", "key.NewPublic", "skey.New", "spub.New"} \cup SigOps
+ReadsBuf(ev) == ev.op \in DecodeOps \cup {"pt.NewFromBytes", "pt.FromCoords", "pt.SetUniform", "sc.SetBytes", "sc.SetCanonicalBytes", "key.NewPrivate", "key.NewPublic", "skey.New", "spub.New",
+                                     "key.PubEqual", "key.PrivEqual", "spub.Equal", "skey.Equal"} \cup SigOps
 ReadSlot(ev) == IF ev.op \in {"key.Sign", "skey.Sign"} THEN ev.m ELSE ev.b           \* the buffer whose CLASS decides the outcome
 SysCalls == {ev \in AllCalls : ~IsEnv(ev) /\ (NP < 3 \/ NS < 2 \/ NB < 2 \/ TRUE)}
 (* ... and after the call the CALLER scribbles over everything the call was given or handed out: the buffers it read or wrote, *)
